@@ -7,6 +7,7 @@ import (
 	"go/constant"
 	"go/token"
 	"go/types"
+	"math/big"
 	"strings"
 
 	"golang.org/x/tools/go/ssa"
@@ -1084,9 +1085,12 @@ func ruleReplayDoesNotWaitForSource(c *Ctx, p *Prog, rule string) {
 // enforces the context during the handshake only through its deadline, so an
 // unbounded dial against a peer that accepts TCP and never answers the upgrade pins
 // the per-connection goroutine and both sockets for ever.
-func ruleDialHandshakeBounded(c *Ctx, p *Prog, rule string) {
+func ruleDialHandshakeBounded(c *Ctx, p *Prog, rule string, pkgs ...string) {
 	n := 0
-	for _, pk := range []string{"utils/tcpbridge/connection", "utils/tcpbridge/tcp-bridge-frontend", "utils/tcpbridge/tcp-bridge-backend"} {
+	if len(pkgs) == 0 {
+		pkgs = []string{"utils/tcpbridge/connection", "utils/tcpbridge/tcp-bridge-frontend", "utils/tcpbridge/tcp-bridge-backend"}
+	}
+	for _, pk := range pkgs {
 		for _, fn := range p.FuncsIn(pk) {
 			for _, call := range Calls(fn, "(*github.com/gorilla/websocket.Dialer).DialContext", "(*github.com/gorilla/websocket.Dialer).Dial") {
 				if Owner(call) != fn && call.Parent() != fn {
@@ -1099,10 +1103,27 @@ func ruleDialHandshakeBounded(c *Ctx, p *Prog, rule string) {
 				positive := func(lit ssa.Value) bool {
 					v, has := LiteralField(lit, "HandshakeTimeout")
 					if !has {
-						return false
+						// a private copy of gorilla's DefaultDialer with other fields adjusted
+						nst, copyOfDefault := 0, false
+						for _, r := range Refs(lit) {
+							if st, isSt := r.(*ssa.Store); isSt && st.Addr == lit {
+								nst++
+								if strings.HasSuffix(PathOf(st.Val), "global:github.com/gorilla/websocket.DefaultDialer") {
+									copyOfDefault = true
+								}
+							}
+							if fa, isFA := r.(*ssa.FieldAddr); isFA && fieldName(fa.X.Type(), fa.Field) == "HandshakeTimeout" {
+								nst = 99 // written more than once or conditionally
+							}
+						}
+						return nst == 1 && copyOfDefault
 					}
-					k, isC := ConstInt(v)
-					return isC && k > 0
+					if k, isC := ConstInt(v); isC {
+						return k > 0
+					}
+					// a configured value: positive wherever it is set
+					win, err := (&interp{p: p, globals: map[string]iv{}}).evalValue(v, 0)
+					return err == nil && win.kind == 'i' && win.ilo.Sign() > 0
 				}
 				for _, r := range Roots(PArgs(cc)[0]) {
 					if u, isU := r.(*ssa.UnOp); isU && u.Op == token.MUL {
@@ -1171,7 +1192,7 @@ func ruleDialHandshakeBounded(c *Ctx, p *Prog, rule string) {
 		}
 	}
 	if n == 0 {
-		c.Unk(rule, "dial:handshake-bounded", p, 0, "no websocket dial found in the bridge packages")
+		c.Unk(rule, "dial:handshake-bounded", p, 0, "no websocket dial found in "+strings.Join(pkgs, ", "))
 	}
 }
 
@@ -1425,11 +1446,21 @@ func ruleExternalIndexInBounds(c *Ctx, p *Prog, rule string, pkgs ...string) {
 					x, idx = v.X, v.Index
 				case *ssa.Index:
 					x, idx = v.X, v.Index
+				case *ssa.Lookup:
+					// s[i] on a string (a map lookup cannot be out of range)
+					if b, isB := v.X.Type().Underlying().(*types.Basic); !isB || b.Info()&types.IsString == 0 {
+						return
+					}
+					x, idx = v.X, v.Index
 				default:
 					return
 				}
-				switch derefT(x.Type()).Underlying().(type) {
+				switch t := derefT(x.Type()).Underlying().(type) {
 				case *types.Slice, *types.Array:
+				case *types.Basic:
+					if t.Info()&types.IsString == 0 {
+						return
+					}
 				default:
 					return
 				}
@@ -1467,6 +1498,81 @@ func ruleExternalIndexInBounds(c *Ctx, p *Prog, rule string, pkgs ...string) {
 					}
 					return true
 				})
+				// an index counted back from the end (x[len(x)-1]): the length must be known to be
+				// large enough on every way to this instruction — an empty path, header value or
+				// list makes it -1
+				if !counter {
+					lenArg, back := "", int64(0)
+					SliceBack(idx, func(v ssa.Value) bool {
+						if bo, isB := v.(*ssa.BinOp); isB && bo.Op == token.SUB {
+							if k, isC := ConstInt(bo.Y); isC && k >= 1 {
+								for _, r := range Roots(bo.X) {
+									if call, isCall := r.(*ssa.Call); isCall {
+										if b, isBI := call.Call.Value.(*ssa.Builtin); isBI && b.Name() == "len" && len(call.Call.Args) == 1 {
+											lenArg, back = PathOf(call.Call.Args[0]), k
+										}
+									}
+								}
+							}
+						}
+						return true
+					})
+					if lenArg != "" && back > 0 {
+						n++
+						guarded := false
+						for _, g := range GuardConds(i) {
+							bo, isB := g.Cond.(*ssa.BinOp)
+							if !isB {
+								continue
+							}
+							op := bo.Op
+							if !g.Truth {
+								switch op {
+								case token.LSS:
+									op = token.GEQ
+								case token.LEQ:
+									op = token.GTR
+								case token.GTR:
+									op = token.LEQ
+								case token.GEQ:
+									op = token.LSS
+								case token.EQL:
+									op = token.NEQ
+								case token.NEQ:
+									op = token.EQL
+								}
+							}
+							// the string or slice itself compared with "" / nil
+							if PathOf(bo.X) == lenArg && op == token.NEQ && back == 1 {
+								if sv, isS := ConstString(bo.Y); (isS && sv == "") || IsNilConst(bo.Y) {
+									guarded = true
+								}
+							}
+							// its length compared with a constant
+							for _, r := range Roots(bo.X) {
+								call, isCall := r.(*ssa.Call)
+								if !isCall {
+									continue
+								}
+								b, isBI := call.Call.Value.(*ssa.Builtin)
+								if !isBI || b.Name() != "len" || len(call.Call.Args) != 1 || PathOf(call.Call.Args[0]) != lenArg {
+									continue
+								}
+								k, isC := ConstInt(bo.Y)
+								if !isC {
+									continue
+								}
+								if (op == token.GTR && k >= back-1) || (op == token.GEQ && k >= back) || (op == token.NEQ && k == 0 && back == 1) {
+									guarded = true
+								}
+							}
+						}
+						if !guarded {
+							bad = fmt.Sprintf("index %s counted back from the end of %s at %s in %s, with nothing on the way that shows the length is at least %d", PathOf(idx), lenArg, p.Pos(i.Pos()), FuncName(fn), back)
+						}
+						return
+					}
+				}
 				if counter || !external {
 					return
 				}
@@ -1474,11 +1580,14 @@ func ruleExternalIndexInBounds(c *Ctx, p *Prog, rule string, pkgs ...string) {
 				win, err := (&interp{p: p, globals: map[string]iv{}}).evalValue(idx, 0)
 				if err != nil || win.kind != 'i' || win.ilo.Sign() < 0 {
 					bad = fmt.Sprintf("index %s (range %s) at %s in %s", PathOf(idx), win, p.Pos(i.Pos()), FuncName(fn))
+				} else if arr, isArr := derefT(x.Type()).Underlying().(*types.Array); isArr && win.ihi.Cmp(big.NewInt(arr.Len())) >= 0 {
+					// a fixed table: the upper end is known as well
+					bad = fmt.Sprintf("index %s (range %s) into a %d-element array at %s in %s", PathOf(idx), win, arr.Len(), p.Pos(i.Pos()), FuncName(fn))
 				}
 			})
 		}
 	}
-	c.Check(rule, "index:external-values-have-a-lower-bound", p, 0, bad == "", fmt.Sprintf("%d slice/array accesses indexed by a value from outside the function: each has a non-negative lower bound", n), "a slice or array is indexed with a value that can be negative — "+bad+": an input that was only clamped from above (a negative version number, say) panics with index out of range in a request goroutine nothing recovers, which terminates the agent")
+	c.Check(rule, "index:external-values-have-a-lower-bound", p, 0, bad == "", fmt.Sprintf("%d slice/array accesses indexed by a value from outside the function: each has a non-negative lower bound", n), "a slice or array is indexed with a value that can be out of range — "+bad+": an input that was only clamped from one side (a negative version number, a status code beyond a fixed table) panics with index out of range in a request goroutine nothing recovers, which terminates the agent")
 }
 
 // ruleResponseDerefOnErrorPath: a *http.Response that a call returned together with an error is
